@@ -80,6 +80,10 @@ def check(rep, tier):
         N = shape[0] * shape[1] * shape[2]
         kind, req = gen_request(rng, N)
         k = {"int": 5, "ext": 5, "s0": 20, "s_sigma_rel": rng.choice([0, 0.1, 0.3])}     # random shelf variability: recording must not perturb it
+        if i < 6:
+            # always: 'random' recording requests on a flat shelf WITH random shelf variability (the recording draws must not disturb the run)
+            shape = (4, 4, 1); N = 16; k["s_sigma_rel"] = 0.3
+            kind, req = "strs" if i % 3 == 2 else "str", ["random_3", "core_random_2", ["corner", "edge_random_2"], "edge.random.4", "random2", ("all_random_5", "corner")][i]
         chosen, obs, exc = [], None, None
         import ethz_snow.snowflake as SFM
         try:
